@@ -7,6 +7,7 @@
 #define NGRPS		64	/* maximum number of groups */
 #define NREPS		128	/* maximum repetitions */
 #define NDEPT		256	/* re_rec() recursion depth limit */
+#define NINST		100000	/* the largest program (nested repetitions multiply) */
 
 #define MAX(a, b)	((a) < (b) ? (b) : (a))
 #define LEN(a)		(sizeof(a) / sizeof((a)[0]))
@@ -445,7 +446,7 @@ static struct rnode *rnode_parse(char **pat)
 
 static int rnode_count(struct rnode *rnode)
 {
-	int n = 1;
+	long n = 1;		/* saturated at NINST + 1 by the return below */
 	if (!rnode)
 		return 0;
 	if (rnode->rn == RN_CAT)
@@ -466,7 +467,7 @@ static int rnode_count(struct rnode *rnode)
 	}
 	if (!rnode->mincnt)
 		n++;
-	return n;
+	return n > NINST ? NINST + 1 : n;
 }
 
 static int rnode_grpnum(struct rnode *rnode, int num)
@@ -563,7 +564,7 @@ int regcomp(regex_t *preg, char *pat, int flg)
 	struct regex *re;
 	int n = rnode_count(rnode) + 3;
 	int mark;
-	if (rnode && rnode_bad) {
+	if (rnode && (rnode_bad || n > NINST + 3)) {	/* rejected, or too large */
 		rnode_free(rnode);
 		return 1;
 	}
